@@ -3,7 +3,7 @@ from fractions import Fraction as Fr
 from harness import sx, common as C
 
 N_QUICK, N_THOROUGH = 1500, 50000
-RULE = ("programs of 1..12 operations over 1-D histogram variables on shared consecutive bins: h1(data, weights), empty and "
+RULE = ("programs of 1..12 operations over 1-D histogram variables on shared consecutive bins (75%) or adaptive fixed-width bins that additions have to adapt (25%): h1(data, weights), empty and "
         "bare-frequency construction, fill, fill_n (any chunking incl. empty batches), +, +=, copy, *= c, /= c, -, array += under "
         "free arithmetics; data strictly inside the bins, dyadic values and weights (sums of products exact). After every "
         "operation the six statistics fields, mean(), variance(), std()**2 of the affected histogram are read. non-trivial = "
@@ -29,6 +29,7 @@ def gen_data(rng, weighted, maxn=8):
 
 def gen(rng, n, tier):
     for i in range(n):
+        adaptive = rng.random() < 0.25      # every variable is an adaptive fixed-width histogram: additions have to adapt the bins
         ops = []; nv = 0
         for _ in range(rng.choice([1, 2, 3, 4, 6, 8, 12])):
             r = rng.random()
@@ -49,11 +50,14 @@ def gen(rng, n, tier):
             elif r < 0.78: ops.append(["copy", rng.randrange(nv)]); nv += 1
             elif r < 0.86: ops.append(["mul", rng.randrange(nv), Fr(rng.choice([2, 3, 4, 1, 5]), rng.choice([1, 2, 4]))])
             elif r < 0.92: ops.append(["div", rng.randrange(nv), Fr(rng.choice([2, 4, 8, 1]), rng.choice([1, 2]))])
+            elif adaptive: ops.append(["copy", rng.randrange(nv)]); nv += 1
             elif r < 0.96: ops.append(["sub", rng.randrange(nv), rng.randrange(nv)]); nv += 1
             else: ops.append(["arr", rng.randrange(nv)])
-        if nv and rng.random() < 0.12:      # subtraction under free arithmetics may leave negative contents: last operation only
+        if adaptive: ops = [(["empty"] if o[0] == "bare" else o) for o in ops]
+        if nv and rng.random() < 0.12 and not adaptive:      # subtraction under free arithmetics may leave negative contents: last operation only
             ops.append(["subf", rng.randrange(nv), rng.randrange(nv)])
-        yield [["bucket", "len%d/%s" % (len(ops), "+".join(sorted(set(o[0] for o in ops))))], ["ops", ops], ["eps", Fr(0)]]
+        yield [["bucket", "len%d/%s%s" % (len(ops), "adaptive/" if adaptive else "", "+".join(sorted(set(o[0] for o in ops))))], ["ops", ops], ["eps", Fr(0)],
+               ["adaptive", "T" if adaptive else "F"]]
 
 def impl(case):
     import numpy as np, warnings, physt
@@ -71,7 +75,12 @@ def impl(case):
         warnings.simplefilter("ignore")
         for op in d["ops"]:
             k = op[0]
-            if k == "new":
+            if k == "new" and d.get("adaptive") == "T":
+                v, w = arrs(op[1], op[2])
+                env.append(physt.h1(v if len(v) else None, "fixed_width", bin_width=2, adaptive=True, weights=(w if len(v) else None))); x = len(env) - 1
+            elif k == "empty" and d.get("adaptive") == "T":
+                env.append(physt.h1(None, "fixed_width", bin_width=2, adaptive=True)); x = len(env) - 1
+            elif k == "new":
                 v, w = arrs(op[1], op[2]); env.append(physt.h1(v, binning(), weights=w)); x = len(env) - 1
             elif k == "empty": env.append(Histogram1D(binning())); x = len(env) - 1
             elif k == "bare": env.append(Histogram1D(binning(), np.arange(len(edges) - 1))); x = len(env) - 1
